@@ -11,7 +11,7 @@ import subprocess
 from harness import common, gpgutil, keydata
 from harness.common import cps, uncps
 
-BRIDGE = ('Gemato.Bridge.Pgp',)
+BRIDGE = ('Gemato.Bridge.Pgp', 'Gemato.Bridge.SrcPgp')
 PROPS = ['Gemato.Props.C05']
 
 FPR = gpgutil.KEY_FPR
